@@ -31,6 +31,26 @@ def pool(rnd, tier):
         if isinstance(v, list) and v:
             extra.append(list(v))
             extra.append(v[:-1])
+    # equal values whose numbers are written differently (1 / 1.0, 0.0 / -0.0) at any depth: lists, and lists inside sets and as map keys
+    def numvariant(v):
+        if isinstance(v, bool) or isinstance(v, (gal.Pat, gal.Date)):
+            return v
+        if isinstance(v, int) and abs(v) < 2 ** 53:
+            return float(v)
+        if isinstance(v, float) and v == 0.0:
+            return -v
+        if isinstance(v, list):
+            return [numvariant(x) for x in v]
+        if isinstance(v, gal.SetV):
+            return gal.SetV(tuple(numvariant(x) for x in v))
+        if isinstance(v, gal.MapV):
+            return gal.MapV(tuple((numvariant(k), numvariant(x)) for k, x in v))
+        return v
+    for v in list(vals) + [[1], [1, [2, 3]], [0.0], [[1]], [2, 3.0]]:
+        if isinstance(v, list) and v:
+            w = numvariant(v)
+            if repr(w) != repr(v):
+                extra += [v, w, gal.SetV((v,)), gal.SetV((w,)), gal.MapV(((v, "a"),)), gal.MapV(((w, "a"),)), [v, 0], [w, 0]]
     # nested: equal maps / sets in different insertion orders inside sets and as map keys
     m1 = gal.MapV(((1, "a"), (2, "b"), (3, "c")))
     m2 = gal.MapV(((3, "c"), (2, "b"), (1, "a")))
